@@ -10,6 +10,9 @@ func init() {
 	vfRegister("VF_C07_cycles", VF_C07_cycles)
 	vfRegister("VF_C07_params", VF_C07_params)
 	vfRegister("VF_C07_own_tag", VF_C07_own_tag)
+	vfRegister("VF_C07_two_decorators", VF_C07_two_decorators)
+	vfRegister("VF_C07_two_refs", VF_C07_two_refs)
+	vfRegister("VF_C05_two_decorators", VF_C05_two_decorators)
 	vfRegister("VF_C05_scopes", VF_C05_scopes)
 }
 
@@ -22,14 +25,16 @@ type vfGraph struct {
 	svc   []string // service names
 	tag   []string // tag carried by service i ("" = none)
 	refS  []string // service i references @refS[i] ("" = none)
+	refS2 []string // ... and, after it in the same argument list, @refS2[i]
 	refT  []string // service i requests !tagged refT[i]
 	refP  []string // service i references %refP[i]%
 	par   []string
 	parP  []string // parameter i references %parP[i]%
-	dTag  string
-	dRefS string
-	dRefT string
-	dRefP string
+	// decorators, in declaration order
+	dTag  []string
+	dRefS []string
+	dRefT []string
+	dRefP []string
 }
 
 func vfOpt(name string, ln int) string {
@@ -52,8 +57,10 @@ func vfOne(s string) []string {
 type vfShape struct {
 	nsvc                   int
 	tags, refS, refT, refP []bool // per service
+	refS2                  []bool // per service: a second @service slot (nil = none)
 	params                 int
 	decorator              bool
+	decorators             int // number of decorators when decorator is set (0 = 1)
 	dRefS, dRefT, dRefP    bool
 }
 
@@ -99,6 +106,7 @@ func vfMakeGraphS(sh vfShape) *vfGraph {
 		g.svc = append(g.svc, n)
 		g.tag = append(g.tag, vfSlot(sh.tags[i], "tag", ln))
 		g.refS = append(g.refS, vfSlot(sh.refS[i], "refS", ln))
+		g.refS2 = append(g.refS2, vfSlot(sh.refS2 != nil && sh.refS2[i], "refS2", ln))
 		g.refT = append(g.refT, vfSlot(sh.refT[i], "refT", ln))
 		g.refP = append(g.refP, vfSlot(sh.refP[i], "refP", ln))
 	}
@@ -112,12 +120,20 @@ func vfMakeGraphS(sh vfShape) *vfGraph {
 		g.parP = append(g.parP, vfOpt("parP", ln))
 	}
 	withDecorator := sh.decorator
+	nd := 0
 	if withDecorator {
-		g.dTag = vfStr("dTag", ln)
-		vfAssume(g.dTag != "")
-		g.dRefS = vfSlot(sh.dRefS, "dRefS", ln)
-		g.dRefT = vfSlot(sh.dRefT, "dRefT", ln)
-		g.dRefP = vfSlot(sh.dRefP, "dRefP", ln)
+		nd = sh.decorators
+		if nd == 0 {
+			nd = 1
+		}
+	}
+	for d := 0; d < nd; d++ {
+		t := vfStr("dTag", ln)
+		vfAssume(t != "")
+		g.dTag = append(g.dTag, t)
+		g.dRefS = append(g.dRefS, vfSlot(sh.dRefS, "dRefS", ln))
+		g.dRefT = append(g.dRefT, vfSlot(sh.dRefT, "dRefT", ln))
+		g.dRefP = append(g.dRefP, vfSlot(sh.dRefP, "dRefP", ln))
 	}
 	// build the Output, spreading the three slots over the three positions
 	for i, n := range g.svc {
@@ -128,6 +144,9 @@ func vfMakeGraphS(sh vfShape) *vfGraph {
 		// a slot that is not used leaves no argument behind (a service may have no arguments at all)
 		if g.refS[i] != "" {
 			s.Args = []Arg{{DependsOnServices: vfOne(g.refS[i])}}
+		}
+		if g.refS2[i] != "" {
+			s.Args = append(s.Args, Arg{DependsOnServices: vfOne(g.refS2[i])})
 		}
 		if g.refT[i] != "" {
 			s.Calls = []Call{{Method: "M", Args: []Arg{{DependsOnTags: vfOne(g.refT[i])}}}}
@@ -140,10 +159,10 @@ func vfMakeGraphS(sh vfShape) *vfGraph {
 	for i, n := range g.par {
 		g.o.Params = append(g.o.Params, Param{Name: n, DependsOn: vfOne(g.parP[i])})
 	}
-	if withDecorator {
-		g.o.Decorators = []Decorator{{Tag: g.dTag, Decorator: "D", Args: []Arg{
-			{DependsOnServices: vfOne(g.dRefS), DependsOnTags: vfOne(g.dRefT), DependsOnParams: vfOne(g.dRefP)},
-		}}}
+	for d := range g.dTag {
+		g.o.Decorators = append(g.o.Decorators, Decorator{Tag: g.dTag[d], Decorator: "D", Args: []Arg{
+			{DependsOnServices: vfOne(g.dRefS[d]), DependsOnTags: vfOne(g.dRefT[d]), DependsOnParams: vfOne(g.dRefP[d])},
+		}})
 	}
 	return g
 }
@@ -160,17 +179,22 @@ func (g *vfGraph) closure() [][]bool {
 		r[i] = make([]bool, n)
 	}
 	for i := 0; i < ns; i++ {
-		decorated := vfAnd(g.dTag != "", vfNE(g.tag[i], g.dTag))
 		for j := 0; j < ns; j++ {
-			e := vfNE(g.refS[i], g.svc[j])                         // @service
-			e = vfOr(e, vfNE(g.refT[i], g.tag[j]))                 // !tagged t, j carries t
-			e = vfOr(e, vfAnd(decorated, vfNE(g.dRefS, g.svc[j]))) // decorator on my tag references @j
-			e = vfOr(e, vfAnd(decorated, vfNE(g.dRefT, g.tag[j]))) // decorator on my tag requests a tag j carries
+			e := vfNE(g.refS[i], g.svc[j])         // @service
+			e = vfOr(e, vfNE(g.refS2[i], g.svc[j])) // a second @service
+			e = vfOr(e, vfNE(g.refT[i], g.tag[j])) // !tagged t, j carries t
+			for d := range g.dTag {
+				decorated := vfNE(g.tag[i], g.dTag[d])                    // decorator d is attached to my tag
+				e = vfOr(e, vfAnd(decorated, vfNE(g.dRefS[d], g.svc[j]))) // ... and references @j
+				e = vfOr(e, vfAnd(decorated, vfNE(g.dRefT[d], g.tag[j]))) // ... or requests a tag j carries
+			}
 			r[i][j] = e
 		}
 		for j := 0; j < np; j++ {
 			e := vfNE(g.refP[i], g.par[j])
-			e = vfOr(e, vfAnd(decorated, vfNE(g.dRefP, g.par[j])))
+			for d := range g.dTag {
+				e = vfOr(e, vfAnd(vfNE(g.tag[i], g.dTag[d]), vfNE(g.dRefP[d], g.par[j])))
+			}
 			r[i][ns+j] = e
 		}
 	}
@@ -243,6 +267,44 @@ func VF_C07_own_tag() {
 	vfReach("C07_own_tag")
 }
 
+// VF_C07_two_refs: two @service references per service, each of which may be
+// dangling: a dangling reference hides nothing that comes after it.
+func VF_C07_two_refs() {
+	g := vfMakeGraphS(vfShape{nsvc: 2, tags: []bool{false, false}, refS: []bool{true, true}, refS2: []bool{true, true}, refT: []bool{false, false},
+		refP: []bool{false, false}})
+	err := ValidateCircularDeps(g.o)
+	r := g.closure()
+	cyclic := false
+	for i := range r {
+		cyclic = vfOr(cyclic, r[i][i])
+	}
+	vfAssert((err != nil) == cyclic, "rejected for circular dependencies iff the dependency relation is cyclic (two references per service)")
+	if err != nil {
+		for i, n := range g.svc {
+			if r[i][i] {
+				vfAssert(strings.Contains(err.Error(), "@"+n), "the report shows a cycle through each service lying on one")
+			}
+		}
+	}
+	vfReach("C07_two_refs")
+}
+
+// VF_C07_two_decorators: two decorators on (possibly) different tags, each
+// with its own @service reference: a decorator contributes its own
+// dependencies only, and only to the services carrying its tag.
+func VF_C07_two_decorators() {
+	g := vfMakeGraphS(vfShape{nsvc: 2, tags: []bool{true, true}, refS: []bool{false, true}, refT: []bool{false, false},
+		refP: []bool{false, false}, decorator: true, decorators: 2, dRefS: true})
+	err := ValidateCircularDeps(g.o)
+	r := g.closure()
+	cyclic := false
+	for i := range r {
+		cyclic = vfOr(cyclic, r[i][i])
+	}
+	vfAssert((err != nil) == cyclic, "rejected for circular dependencies iff the dependency relation is cyclic (two decorators)")
+	vfReach("C07_two_decorators")
+}
+
 // VF_C07_params: the same with parameter edges (%param% from parameters,
 // services and decorators).
 func VF_C07_params() {
@@ -276,6 +338,18 @@ func VF_C05_scopes() {
 		g = vfMakeGraphS(vfShape{nsvc: 2, tags: []bool{false, true}, refS: []bool{true, false}, refT: []bool{true, false},
 			refP: []bool{false, false}, decorator: true, dRefS: true})
 	}
+	vfCheckScopes(g, "C05_scopes")
+}
+
+// VF_C05_two_decorators: the same over two decorators with their own @service
+// references (a shared service is only affected by the decorators of its tag).
+func VF_C05_two_decorators() {
+	g := vfMakeGraphS(vfShape{nsvc: 2, tags: []bool{true, false}, refS: []bool{false, false}, refT: []bool{false, false},
+		refP: []bool{false, false}, decorator: true, decorators: 2, dRefS: true})
+	vfCheckScopes(g, "C05_two_decorators")
+}
+
+func vfCheckScopes(g *vfGraph, reach string) {
 	scopes := make([]Scope, len(g.svc))
 	for i := range scopes {
 		sc := vfInt("scope")
@@ -307,7 +381,7 @@ func VF_C05_scopes() {
 	}
 	vfAssert((err != nil) == bad, "rejected for scope reasons iff a shared service transitively depends on a contextual one")
 	vfAssert(len(grouperror.Collection(err)) == want, "one scope diagnostic per offending pair")
-	vfReach("C05_scopes")
+	vfReach(reach)
 }
 
 func init() { vfRegister("VF_C08_scopes", VF_C08_scopes) }
